@@ -3,7 +3,11 @@
 #include <algorithm>
 #include <sstream>
 
+#include <boost/asio/error.hpp>
+#include <boost/mqtt5/error.hpp>
+
 #include "ref/gen.hpp"
+#include "ref/lib2ref.hpp"
 #include "sim/monitors.hpp"
 
 namespace sim {
@@ -16,12 +20,12 @@ struct Judge {
     uint64_t cases = 0;
 
     // returns true if the scenario ran to its end (not aborted by the engine)
-    bool judge(const Scenario& sc, Execution& ex, bool count_shape = true) {
+    bool judge(const Scenario& sc, Execution& ex, bool count_shape = true, bool ids_only = false) {
         ++cases;
         res.evaluations++;
         Verdicts v;
         monitor_engine(ex.run, v, res);
-        monitor_all(ex.run, v, res);
+        if (ids_only) monitor_ids_only(ex.run, v, res); else monitor_all(ex.run, v, res);
         if (count_shape) res.hash(trace_shape(ex.run));
         res.count("connections", ex.world->h.conns.size());
         res.count("client_packets", ex.world->h.cpkts.size());
@@ -227,6 +231,7 @@ Knobs knobs_for(const std::string& family) {
     else if (family == "c06-mix") { k.pubs_min = 2; k.pubs_max = 60; k.burst_pct = 70; k.faults_max = 3; k.qos_w[0] = 2; k.big_payload_pct = 2; k.inbound = 0; k.subs = 0; }
     else if (family == "c07-mix") { k.pubs_min = 4; k.pubs_max = 30; k.burst_pct = 80; k.rm_choices = {1, 1, 2, 3, 4, 8, 65535}; k.qos_w[0] = 1; k.faults_max = 2; k.ack_delay_max = 200 * MS; k.inbound = 1; k.subs = 0; }
     else if (family == "c08-mix") { k.pubs_min = 5; k.pubs_max = 40; k.subs = 2; k.unsubs = 2; k.faults_max = 2; k.inbound = 3; }
+    else if (family == "c11-mix") { k.keep_alive = 2; k.faults_max = 3; k.bad_attempts_max = 3; k.pubs_max = 8; k.ack_delay_max = 500 * MS; k.suffix = 60 * SEC; }
     else if (family == "c13-mix") { k.pubs_max = 4; k.subs = 2; k.faults_max = 3; k.lose_session_pct = 60; k.inbound = 2; }
     else if (family == "c14-mix") { k.pubs_max = 2; k.subs = 3; k.unsubs = 2; k.faults_max = 2; }
     return k;
@@ -335,6 +340,499 @@ void run_idle_sweep(Judge& j, uint64_t nbase, int max_idle, const std::vector<in
     }
 }
 
+
+// ------------------------------------------------------------------------------------------------ C01: spurious acknowledgements at quiescent points
+// Soundness rule: a forged ack is indistinguishable from a real one once the PUBLISH is in flight, so forged acks are sent only
+// when nothing is outstanding, no broker byte is undelivered and no client write is pending, for the id the next request will get.
+void run_spurious(Judge& j, uint64_t n) {
+    const FamilyCtx& ctx = j.ctx;
+    for (uint64_t i = 0; i < n; ++i) {
+        if (int(i % ctx.nshards) != ctx.shard) continue;
+        vu::Rng rng(ctx.seed * 7777777 + i * 31 + 5);
+        Scenario sc; sc.family = "c01-spurious"; sc.seed = ctx.seed; sc.index = i;
+        sc.net.chunking = rng.pick(std::vector<Chunking>{Chunking::whole, Chunking::bytewise, Chunking::random});
+        Action r; r.kind = Action::run; sc.script.push_back(r);
+        vt t = 100 * MS;
+        int warm = (int)rng.below(3);
+        for (int k = 0; k < warm; ++k) { Action p; p.kind = Action::publish; p.at = t; p.qos = (int)rng.range(1, 2); p.topic = "w"; p.payload = "warm"; sc.script.push_back(p); t += 50 * MS; }
+        // every earlier exchange is complete by now, so the allocator hands out id 1 next
+        t += 2 * SEC;
+        int kind = (int)rng.below(5);
+        Action sp; sp.kind = Action::spurious_ack; sp.at = t; sp.pkt.pid = 1;
+        sp.pkt.type = kind == 0 ? ref::PUBACK : kind == 1 ? ref::PUBREC : kind == 2 ? ref::PUBCOMP : kind == 3 ? ref::SUBACK : ref::UNSUBACK;
+        if (sp.pkt.type == ref::SUBACK || sp.pkt.type == ref::UNSUBACK) sp.pkt.rcs = {0};
+        if (rng.chance(1, 2)) { ref::Prop u; u.id = 0x1F; u.s1 = "forged"; sp.pkt.props.push_back(u); }
+        sc.script.push_back(sp);
+        if (kind == 1 && rng.chance(1, 2)) { Action sp2 = sp; sp2.pkt.type = ref::PUBCOMP; sp2.at = t + 1 * MS; sc.script.push_back(sp2); }
+        // delay the genuine acknowledgement so that a forged completion would be visible
+        sc.bcfg.ack_delay_min = 20 * MS; sc.bcfg.ack_delay_max = 200 * MS;
+        Action q; q.at = t + 5 * MS;
+        if (kind <= 2) { q.kind = Action::publish; q.qos = kind == 0 ? 1 : 2; q.topic = "x"; q.payload = "real"; }
+        else if (kind == 3) { q.kind = Action::subscribe; q.subs = {{"s/+", 1}}; }
+        else { q.kind = Action::unsubscribe; q.subs = {{"s/+", 0}}; }
+        sc.script.push_back(q);
+        sc.end = t + 10 * SEC;
+        vu::set_case(sc.family + " index=" + std::to_string(i));
+        auto ex = execute(sc);
+        j.judge(sc, *ex);
+        j.res.count("spurious_ack_scenarios");
+    }
+}
+
+// ------------------------------------------------------------------------------------------------ C10: configurations and handshake outcome sequences
+void run_c10(Judge& j, uint64_t n) {
+    const FamilyCtx& ctx = j.ctx;
+    for (uint64_t i = 0; i < n; ++i) {
+        if (int(i % ctx.nshards) != ctx.shard) continue;
+        vu::Rng rng(ctx.seed * 1299709 + i * 15485863 + 11);
+        ref::Gen g(rng); g.max_str = 30;
+        Scenario sc; sc.family = "c10-config"; sc.seed = ctx.seed; sc.index = i;
+        ClientCfg& c = sc.ccfg;
+        c.client_id = rng.chance(1, 6) ? "" : g.text(rng.range(1, 23));
+        c.username = rng.chance(1, 2) ? g.text(rng.range(1, 20)) : "";
+        c.password = rng.chance(1, 2) ? g.text(rng.range(1, 20)) : "";
+        c.keep_alive = rng.pick(std::vector<uint16_t>{0, 1, 10, 60, 600, 65535});
+        c.has_will = rng.chance(1, 2);
+        if (c.has_will) {
+            c.will_topic = g.topic(); c.will_payload = payload_for(rng, 0); c.will_qos = (uint8_t)rng.below(3); c.will_retain = rng.chance(1, 2);
+            ref::Props wp = g.props(ref::WILL, -1); for (auto& x : wp) if (x.id == 0x01) x.num = 0;
+            l2r::from_ref(wp, c.will_props);
+        }
+        { ref::Props cp = g.props(ref::CONNECT, -1, {0x15, 0x16, 0x27}); l2r::from_ref(cp, c.connect_props); }
+        c.use_authenticator = rng.chance(1, 5);
+        if (c.use_authenticator) { c.auth_method = "SIM-" + g.text(rng.range(1, 6)); sc.broker_auth_rounds = (int)rng.below(3); }
+        // broker list
+        int nh = (int)rng.range(1, 4);
+        std::string list;
+        c.default_port = rng.chance(1, 2) ? 1883 : (uint16_t)rng.range(1024, 9000);
+        for (int h = 0; h < nh; ++h) {
+            std::string host = rng.chance(1, 6) ? "nx" + std::to_string(h) + ".sim" : rng.chance(1, 6) ? "multi.sim" : "b" + std::to_string(rng.below(3)) + ".sim";
+            std::string port = rng.chance(1, 2) ? std::to_string(rng.range(1000, 60000)) : "";
+            std::string item = host + (port.empty() ? "" : ":" + port) + (rng.chance(1, 4) ? "/path" + std::to_string(h) : "");
+            if (rng.chance(1, 3)) item = " " + item + (rng.chance(1, 2) ? " " : "");
+            list += (h ? "," : "") + item;
+            sc.host_list.emplace_back(host, port.empty() ? std::to_string(c.default_port) : port);
+        }
+        c.brokers = list;
+        // outcome sequence per TCP attempt, then good
+        int bad = (int)rng.below(7);
+        for (int b = 0; b < bad; ++b) sc.attempts.push_back(rng.chance(1, 4) ? AttemptPlan{} : bad_attempt(rng));
+        // a host list that only contains unresolvable names never connects: that is fine, the rotation is still judged
+        Action r; r.kind = Action::run; sc.script.push_back(r);
+        Action p; p.kind = Action::publish; p.at = 10 * MS; p.qos = 1; p.topic = "c"; p.payload = "x"; sc.script.push_back(p);
+        if (rng.chance(1, 2)) { Fault f; f.kind = Fault::reset_b2c; f.conn_ordinal = (int)rng.below(2); f.at = rng.range(0, 20); sc.faults.push_back(f); }
+        sc.end = 90 * SEC;
+        vu::set_case(sc.family + " index=" + std::to_string(i));
+        auto ex = execute(sc);
+        j.judge(sc, *ex);
+    }
+}
+
+// ------------------------------------------------------------------------------------------------ C12: keep-alive
+void run_c12(Judge& j, uint64_t n) {
+    const FamilyCtx& ctx = j.ctx;
+    for (uint64_t i = 0; i < n; ++i) {
+        if (int(i % ctx.nshards) != ctx.shard) continue;
+        vu::Rng rng(ctx.seed * 6700417 + i * 257 + 3);
+        Scenario sc; sc.family = "c12-keepalive"; sc.seed = ctx.seed; sc.index = i;
+        uint16_t K = rng.pick(std::vector<uint16_t>{0, 1, 1, 2, 2, 5, 5, 60, 300, 65535});
+        if (K == 65535 && !rng.chance(1, 4)) K = 10;
+        sc.ccfg.keep_alive = K;
+        unsigned eff = K;
+        if (rng.chance(1, 3)) { uint16_t sk = rng.pick(std::vector<uint16_t>{0, 1, 2, 3, 7, 30}); sc.bcfg.caps.server_keep_alive = sk; eff = sk; }
+        sc.net.chunking = rng.pick(std::vector<Chunking>{Chunking::whole, Chunking::bytewise, Chunking::random});
+        if (rng.chance(1, 3)) sc.net.write_done_delay_max = (vt)rng.range(10 * US, 5 * MS);
+        Action r; r.kind = Action::run; sc.script.push_back(r);
+        vt unit = eff ? vt(eff) * SEC : 10 * SEC;
+        vt talk_until = (vt)rng.range(unit, 6 * unit);
+        // traffic while the broker talks: QoS 0 both ways (nothing waits for a reply), at random instants
+        int nt = (int)rng.below(12);
+        for (int k = 0; k < nt; ++k) {
+            if (rng.chance(1, 2)) { Action p; p.kind = Action::publish; p.at = (vt)rng.range(0, talk_until); p.qos = 0; p.topic = "k"; p.payload = "x"; sc.script.push_back(p); }
+            else { Action b; b.kind = Action::broker_publish; b.at = (vt)rng.range(0, talk_until); b.qos = 0; b.topic = "k"; b.payload = "y"; sc.script.push_back(b); }
+        }
+        if (rng.chance(1, 3)) { Action p; p.kind = Action::publish; p.at = (vt)rng.range(0, talk_until / 2); p.qos = 1; p.topic = "k1"; p.payload = "z"; sc.script.push_back(p); }
+        int mode = (int)rng.below(3);   // 0: talks for ever, 1: falls silent, 2: silent then talks again
+        if (mode >= 1) {
+            sc.bcfg.silent_from = talk_until;
+            if (mode == 2) sc.bcfg.silent_until = talk_until + (vt)rng.range(unit / 2, 4 * unit);
+        }
+        if (rng.chance(1, 4)) { Fault f; f.kind = Fault::reset_b2c; f.conn_ordinal = 0; f.at = rng.range(5, 40); sc.faults.push_back(f); }
+        sc.end = eff ? talk_until + 8 * unit + 30 * SEC : 3600 * SEC;
+        vu::set_case(sc.family + " index=" + std::to_string(i));
+        auto ex = execute(sc);
+        j.judge(sc, *ex);
+        if (mode >= 1 && eff) j.res.count("silence_scenarios");
+    }
+}
+
+// ------------------------------------------------------------------------------------------------ C15: capabilities
+size_t publish_size(const std::string& topic, const std::string& payload, int qos, bool retain, const ref::Props& props) {
+    ref::Packet p; p.type = ref::PUBLISH; p.topic = topic; p.payload = payload; p.qos = (uint8_t)qos; p.retain = retain; p.pid = 1; p.props = props;
+    return ref::encode(p).size();
+}
+
+void run_c15(Judge& j, uint64_t extra_random) {
+    const FamilyCtx& ctx = j.ctx;
+    uint64_t idx = 0;
+    // all 2^6 on/off combinations of the six capabilities x boundary requests
+    for (int combo = 0; combo < 64 + (int)extra_random; ++combo) {
+        if (int(idx++ % ctx.nshards) != ctx.shard) continue;
+        vu::Rng rng(ctx.seed * 999331 + combo * 7 + 1);
+        int bits = combo < 64 ? combo : (int)rng.below(64);
+        Scenario sc; sc.family = "c15-caps"; sc.seed = ctx.seed; sc.index = combo;
+        Caps& cp = sc.bcfg.caps;
+        uint32_t mps = 0; unsigned maxqos = 2, tam = 0;
+        if (bits & 1) { mps = (uint32_t)rng.pick(std::vector<int>{60, 100, 200, 1000}); cp.maximum_packet_size = mps; }
+        if (bits & 2) { maxqos = (unsigned)rng.below(2); cp.maximum_qos = (uint8_t)maxqos; }
+        if (bits & 4) cp.retain_available = 0; else if (rng.chance(1, 2)) cp.retain_available = 1;
+        if (bits & 8) { tam = (unsigned)rng.pick(std::vector<int>{1, 5, 65535}); cp.topic_alias_maximum = (uint16_t)tam; } else if (rng.chance(1, 2)) cp.topic_alias_maximum = 0;
+        if (bits & 16) cp.wildcard_available = 0; else if (rng.chance(1, 2)) cp.wildcard_available = 1;
+        if (bits & 32) { cp.shared_available = 0; cp.sub_id_available = 0; } else if (rng.chance(1, 2)) { cp.shared_available = 1; cp.sub_id_available = 1; }
+        bool retain_ok = !(bits & 4), wild_ok = !(bits & 16), shared_ok = !(bits & 32);
+        Action r; r.kind = Action::run; sc.script.push_back(r);
+        vt t = 1 * SEC;
+        auto pub = [&](int qos, bool retain, const std::string& suffix, const std::string& payload, ref::Props props, int expect) {
+            Action p; p.kind = Action::publish; p.at = t; t += 1 * MS; p.qos = qos; p.retain = retain; p.topic = suffix; p.payload = payload; p.props = props;
+            p.expect_immediate = expect != 0; p.expect_ec = expect;
+            sc.script.push_back(p);
+        };
+        auto fits = [&](const std::string& suffix, const std::string& payload, int qos, bool retain, const ref::Props& props) {
+            return !mps || publish_size("v/00000/" + suffix, payload, qos, retain, props) <= mps;
+        };
+        // QoS boundary: max and max+1
+        for (unsigned q = 0; q <= 2; ++q) if (fits("q", "p", q, false, {})) pub(q, false, "q", "p", {}, q > maxqos ? 105 : 0);
+        // retain
+        if (maxqos >= 1 || true) pub(0, true, "r", "p", {}, retain_ok ? 0 : 106);
+        // topic alias boundary: max, max+1 (and any alias when the maximum is 0 / absent)
+        {
+            auto alias = [&](unsigned a) { ref::Props p; ref::Prop x; x.id = 0x23; x.num = a; p.push_back(x); return p; };
+            if (tam) { pub(0, false, "a", "p", alias(tam), 0); if (tam < 65535) pub(0, false, "a", "p", alias(tam + 1), 107); pub(0, false, "a", "p", alias(1), 0); }
+            else pub(0, false, "a", "p", alias(1), 107);
+        }
+        // packet size boundary: exactly the limit and one byte more
+        if (mps) {
+            for (int q = 0; q <= (int)std::min(maxqos, 1u); ++q) {
+                size_t base = publish_size("v/00000/s", "", q, false, {});
+                if (base < mps) {
+                    pub(q, false, "s", std::string(mps - base, 'x'), {}, 0);
+                    pub(q, false, "s", std::string(mps - base + 1, 'x'), {}, 101);
+                }
+            }
+        }
+        // subscriptions
+        auto sub = [&](const std::string& filter, bool raw, ref::Props props, int expect) {
+            Action s; s.kind = Action::subscribe; s.at = t; t += 1 * MS; s.subs = {{filter, 1}}; s.raw_topic = raw; s.props = props; s.expect_immediate = expect != 0; s.expect_ec = expect;
+            // subscriptions are small; skip them if even the smallest would exceed a tiny Maximum Packet Size
+            ref::Packet p; p.type = ref::SUBSCRIBE; p.pid = 1; p.subs = {{raw ? filter : "v/00000/" + filter, 1}}; p.props = props;
+            if (mps && ref::encode(p).size() > mps) return;
+            sc.script.push_back(s);
+        };
+        sub("plain/topic", false, {}, 0);
+        sub("w/+/x", false, {}, wild_ok ? 0 : 108);
+        sub("w/#", false, {}, wild_ok ? 0 : 108);
+        sub("$share/grp/v/00000/t", true, {}, shared_ok ? 0 : 110);
+        { ref::Props p; ref::Prop x; x.id = 0x0B; x.num = 7; p.push_back(x); sub("idf", false, p, shared_ok ? 0 : 109); }
+        // DISCONNECT with properties larger than the limit: properties are dropped, not refused
+        if (mps && rng.chance(1, 2)) {
+            Action d; d.kind = Action::disconnect; d.at = t + 2 * SEC; d.rc = 0; ref::Prop u; u.id = 0x1F; u.s1 = std::string(mps + 10, 'r'); d.props.push_back(u);
+            sc.script.push_back(d);
+        }
+        sc.end = t + 10 * SEC;
+        vu::set_case(sc.family + " combo=" + std::to_string(combo));
+        auto ex = execute(sc);
+        j.judge(sc, *ex);
+        j.res.count("capability_combinations");
+    }
+    // identifiers are not consumed by refused requests: 70 000 refusals, then 65 535 accepted requests must not overrun
+    if (int(idx++ % ctx.nshards) == ctx.shard) {
+        Scenario sc; sc.family = "c15-idleak"; sc.seed = ctx.seed;
+        sc.bcfg.caps.maximum_qos = 0; sc.bcfg.caps.wildcard_available = 0;
+        sc.bcfg.silent_after_connack = true;
+        sc.auto_receive = false;
+        Action r; r.kind = Action::run; sc.script.push_back(r);
+        int refused = ctx.thorough ? 70000 : 4000;
+        for (int k = 0; k < refused; ++k) {
+            Action p; p.at = 1 * SEC;
+            if (k % 2) { p.kind = Action::publish; p.qos = 1 + (k / 2) % 2; p.topic = "x"; p.payload = ""; p.expect_immediate = true; p.expect_ec = 105; }
+            else { p.kind = Action::subscribe; p.subs = {{"a/#", 0}}; p.expect_immediate = true; p.expect_ec = 108; }
+            sc.script.push_back(p);
+        }
+        for (int k = 0; k < 65535; ++k) { Action s; s.kind = Action::unsubscribe; s.at = 2 * SEC; s.subs = {{"u", 0}}; sc.script.push_back(s); }
+        sc.end = 4 * SEC;
+        vu::set_case(sc.family);
+        auto ex = execute(sc);
+        // judged here: none of the 65 535 accepted requests may have been refused with pid_overrun
+        int overruns = 0, accepted = 0;
+        for (auto& o : ex->world->h.ops) if (o.kind == OpKind::unsub) { ++accepted; if (o.completions && o.ec.value() == 103 && o.t_done < 3 * SEC) ++overruns; }
+        j.res.count("idleak_accepted_requests", accepted);
+        if (overruns) j.res.violation("C15", "C15:refused-requests-consume-packet-ids", std::to_string(overruns) + " of 65535 accepted requests were refused with pid_overrun after " + std::to_string(refused) + " refused requests", sc.describe().substr(0, 600));
+        j.res.evaluations++;
+    }
+}
+
+// ------------------------------------------------------------------------------------------------ C16: validation through the public API
+struct Frag { const char* s; };
+void run_c16_api(Judge& j, uint64_t n) {
+    const FamilyCtx& ctx = j.ctx;
+    static const std::vector<std::string> frag = {
+        "/", "+", "#", "a", "b", "$share", "$share/", "g", "//", "+/", "/+", "/#", "#/", "a+", "+a", "a#", "\xC3\xA9", "\xE2\x82\xAC", "\xF0\x9F\x98\x80",
+        "\xC0\xAF", "\xED\xA0\x80", "\xEF\xBF\xBE", "\xC3", "\x80", std::string(1, '\0'), "\x1F", "\x7F", "\xC2\x80", "\xC3\xBE", "\xF4\x90\x80\x80", "topic", " "};
+    for (uint64_t i = 0; i < n; ++i) {
+        if (int(i % ctx.nshards) != ctx.shard) continue;
+        vu::Rng rng(ctx.seed * 40503 + i * 65537 + 9);
+        Scenario sc; sc.family = "c16-api"; sc.seed = ctx.seed; sc.index = i;
+        // an unconnected client: the only endpoint never answers the TCP connect
+        AttemptPlan hang; hang.tcp = AttemptPlan::tcp_hang; sc.default_attempt = hang;
+        sc.auto_receive = false;
+        Action r; r.kind = Action::run; sc.script.push_back(r);
+        auto compose = [&]() { std::string s; int parts = (int)rng.range(1, 5); for (int k = 0; k < parts; ++k) s += rng.pick(frag); return s; };
+        vt t = 10 * MS;
+        for (int k = 0; k < 12; ++k) {
+            Action a; a.at = t; t += 1 * MS; a.raw_topic = true;
+            int what = (int)rng.below(7);
+            std::string s = compose();
+            if (rng.chance(1, 30)) s = std::string(rng.pick(std::vector<size_t>{65535, 65536}), 'a');
+            switch (what) {
+                case 0: {   // publish: topic name
+                    a.kind = Action::publish; a.qos = (int)rng.below(3); a.topic = s; a.payload = "p";
+                    bool ok = ref::topic_name_ok(s);
+                    a.expect_immediate = !ok; a.expect_ec = ok ? 0 : 104;
+                    break;
+                }
+                case 1: {   // publish: string properties
+                    a.kind = Action::publish; a.qos = (int)rng.below(3); a.topic = "ok/topic"; a.payload = "p";
+                    ref::Prop p; int which = (int)rng.below(3);
+                    bool ok;
+                    if (which == 0) { p.id = 0x03; p.s1 = s; ok = s.size() <= 65535 && ref::utf8_class(s) == ref::Utf8::clean; }
+                    else if (which == 1) { p.id = 0x08; p.s1 = s; ok = ref::topic_name_ok(s); }
+                    else { p.id = 0x26; p.s1 = rng.chance(1, 2) ? s : "k"; p.s2 = p.s1 == s ? "v" : s; ok = s.size() <= 65535 && ref::utf8_class(s) == ref::Utf8::clean; }
+                    a.props.push_back(p);
+                    a.expect_immediate = !ok; a.expect_ec = ok ? 0 : 100;
+                    break;
+                }
+                case 2: {   // publish: payload declared as UTF-8
+                    a.kind = Action::publish; a.qos = 0; a.topic = "ok/utf8"; a.payload = s;
+                    ref::Prop p; p.id = 0x01; p.num = 1; a.props.push_back(p);
+                    auto cls = ref::utf8_class(s);
+                    if (s.size() > 65535) continue;   // don't-care: the 65535 limit of UTF-8 *strings* applied to a payload
+                    if (cls == ref::Utf8::ill_formed) { a.expect_immediate = true; a.expect_ec = 100; }
+                    else if (cls == ref::Utf8::clean) { a.expect_immediate = false; }
+                    else continue;   // control characters / non-characters / NUL in a payload: don't-care
+                    break;
+                }
+                case 3: case 4: {   // subscribe: filters (plain and shared)
+                    a.kind = Action::subscribe;
+                    if (what == 4) s = "$share/" + compose();
+                    a.subs = {{s, (uint8_t)rng.below(3)}};
+                    bool ok = s.rfind("$share/", 0) == 0 ? ref::shared_filter_ok(s) : ref::topic_filter_ok(s);
+                    a.expect_immediate = !ok; a.expect_ec = ok ? 0 : 104;
+                    break;
+                }
+                case 5: {   // subscribe: subscription identifier range
+                    a.kind = Action::subscribe; a.subs = {{"ok/filter", 1}};
+                    ref::Prop p; p.id = 0x0B; p.num = rng.pick(std::vector<uint64_t>{0, 1, 2, 268435454, 268435455, 268435456, 2147483647});
+                    a.props.push_back(p);
+                    bool ok = p.num >= 1 && p.num <= 268435455;
+                    a.expect_immediate = !ok; a.expect_ec = ok ? 0 : 100;
+                    break;
+                }
+                case 6: {   // unsubscribe: filters ($share forms are don't-care there)
+                    if (s.rfind("$share", 0) == 0) continue;
+                    a.kind = Action::unsubscribe; a.subs = {{s, 0}};
+                    bool ok = ref::topic_filter_ok(s);
+                    a.expect_immediate = !ok; a.expect_ec = ok ? 0 : 104;
+                    break;
+                }
+            }
+            sc.script.push_back(a);
+        }
+        sc.end = 1 * SEC;
+        vu::set_case(sc.family + " index=" + std::to_string(i));
+        auto ex = execute(sc);
+        j.judge(sc, *ex);
+        // valid requests must NOT have been refused: they stay pending until the final cancel
+        for (auto& o : ex->world->h.ops) {
+            if (o.kind == OpKind::run || o.kind == OpKind::recv) continue;
+            if (o.immediate_expected) { j.res.count("api_invalid_requests"); continue; }
+            j.res.count("api_valid_requests");
+            if (o.completions && o.t_done < sc.end && o.ec && o.ec != boost::asio::error::operation_aborted)
+                j.res.violation("C16", "C16:valid-request-refused", "a well-formed request was refused with " + ec_name(o.ec) + ": topic/filter " + vu::hex(o.topic.empty() ? (o.subs.empty() ? (o.unsubs.empty() ? "" : o.unsubs[0]) : o.subs[0].first) : o.topic, 40),
+                                  "scenario:\n" + sc.describe() + "\n" + ex->world->h.dump(300));
+        }
+    }
+}
+
+// ------------------------------------------------------------------------------------------------ C08: identifier exhaustion through the real client
+void run_exhaustion(Judge& j) {
+    const FamilyCtx& ctx = j.ctx;
+    if (ctx.shard != 0) return;
+    Scenario sc; sc.family = "c08-exhaustion"; sc.seed = ctx.seed;
+    sc.bcfg.silent_after_connack = true;    // nothing is acknowledged: every identifier stays in use
+    sc.bcfg.only_ack_topics = "/00001/|after";   // once awake, the broker completes one old exchange and the new one
+    sc.auto_receive = false;
+    Action r; r.kind = Action::run; sc.script.push_back(r);
+    for (int k = 0; k < 65535; ++k) { Action p; p.kind = Action::publish; p.at = 1 * SEC; p.qos = 1; p.topic = "e"; p.payload = ""; sc.script.push_back(p); }
+    { Action p; p.kind = Action::publish; p.at = 2 * SEC; p.qos = 1; p.topic = "over"; p.payload = ""; sc.script.push_back(p); }
+    { Action p; p.kind = Action::subscribe; p.at = 2 * SEC; p.subs = {{"over", 0}}; sc.script.push_back(p); }
+    // the broker wakes up and acknowledges one exchange; afterwards a new request must get an identifier again
+    { Action w; w.kind = Action::set_silent; w.at = 3 * SEC; w.qos = 0; sc.script.push_back(w); }
+    { Action k; k.kind = Action::net_kill; k.at = 3 * SEC + 1 * MS; sc.script.push_back(k); }
+    { Action p; p.kind = Action::publish; p.at = 30 * SEC; p.qos = 2; p.topic = "after"; p.payload = ""; sc.script.push_back(p); }
+    sc.end = 60 * SEC;
+    vu::set_case(sc.family);
+    auto ex = execute(sc);
+    j.judge(sc, *ex, false, true);
+    auto& ops = ex->world->h.ops;
+    int overrun_early = 0; bool over_pub = false, over_sub = false, after_ok = false;
+    for (auto& o : ops) {
+        bool overrun = o.completions && o.ec.category() == boost::mqtt5::client::get_error_code_category() && o.ec.value() == 103;
+        if (o.t_init == 1 * SEC && overrun) ++overrun_early;
+        if (o.t_init == 2 * SEC && o.kind == OpKind::pub1) over_pub = overrun;
+        if (o.t_init == 2 * SEC && o.kind == OpKind::sub) over_sub = overrun;
+        if (o.t_init == 30 * SEC) after_ok = o.completions && !o.ec;
+    }
+    j.res.count("exhaustion_scenarios");
+    std::string rp = "scenario: 65535 QoS 1 publishes against a silent broker, then one publish and one subscribe, then the broker acknowledges everything\n";
+    if (overrun_early) j.res.violation("C08", "C08:pid-overrun-before-exhaustion", std::to_string(overrun_early) + " of the first 65535 requests were refused with pid_overrun", rp);
+    if (!over_pub || !over_sub) j.res.violation("C08", "C08:no-pid-overrun-at-exhaustion", "with 65535 identifiers in use a further request was not refused with pid_overrun", rp);
+    if (!after_ok) j.res.violation("C08", "C08:id-not-reusable-after-completion", "after the outstanding exchanges completed a new QoS 2 publish did not complete", rp);
+}
+
+// ------------------------------------------------------------------------------------------------ C19: hostile broker bytes
+std::string mutate_packet(vu::Rng& rng, ref::Gen& g, uint8_t type, const ref::Packet* base = nullptr) {
+    ref::Packet p = base ? *base : g.server_packet(type);
+    if (p.payload.size() > 100) p.payload.resize(100);
+    std::string bytes = ref::encode(p);
+    std::vector<ref::LenField> fields;
+    ref::set_len_trace(&fields);
+    ref::decode(bytes, ref::Dir::from_server);
+    ref::set_len_trace(nullptr);
+    if (!fields.empty() && rng.chance(3, 4)) {
+        auto& f = fields[rng.below(fields.size())];
+        uint32_t max = f.varint ? 268435455u : 65535u, tv = f.value;
+        uint32_t v = rng.pick(std::vector<uint32_t>{0, 1, 2, tv - 1, tv + 1, tv + 2, 127, 128, 16383, 16384, max, max - 1});
+        if (v > max) v = max;
+        std::string e;
+        if (f.varint) ref::put_varint(e, v); else ref::put_u16(e, (uint16_t)v);
+        bytes = bytes.substr(0, f.offset) + e + bytes.substr(f.offset + f.width);
+    } else {
+        size_t pos = rng.below(bytes.size());
+        switch (rng.below(4)) { case 0: bytes[pos] = char(rng.below(256)); break; case 1: bytes.erase(pos, rng.range(1, 3)); break; case 2: bytes.insert(pos, 1, char(rng.below(256))); break; default: bytes[pos] ^= char(1 << rng.below(8)); }
+        if (bytes.empty()) bytes = std::string("\x40\x00", 2);
+    }
+    return bytes;
+}
+
+struct Sig { std::vector<std::string> wire, app; };
+
+// what the client did, up to and including its reaction to the first malformed packet / server DISCONNECT of the hostile stream
+Sig chunk_signature(const Execution& ex) {
+    Sig s;
+    const History& h = ex.world->h;
+    // the hostile stream travels on the connection that received hostile bytes
+    int conn = -1;
+    for (auto& b : h.bpkts) if (b.kind == BKind::hostile) { conn = b.conn; break; }
+    if (conn < 0) return s;
+    for (auto& k : h.cpkts) {
+        if (k.conn != conn || k.dec.status != ref::Status::ok) continue;
+        auto t = k.dec.pkt.type;
+        if (t == ref::PINGREQ || t == ref::CONNECT) continue;
+        if (t == ref::PUBACK || t == ref::PUBREC || t == ref::PUBCOMP || t == ref::PUBREL || t == ref::DISCONNECT)
+            s.wire.push_back(std::string(ref::type_name(t)) + ":" + std::to_string(k.dec.pkt.pid) + ":" + std::to_string(k.dec.pkt.rc));
+    }
+    for (auto& o : h.ops) if (o.kind == OpKind::recv && o.completions && !o.ec) s.app.push_back(o.r_topic + "|" + std::to_string(vu::fnv(o.r_payload)));
+    return s;
+}
+
+void run_c19(Judge& j, uint64_t n) {
+    const FamilyCtx& ctx = j.ctx;
+    static const uint8_t types[] = {ref::CONNACK, ref::PUBLISH, ref::PUBACK, ref::PUBREC, ref::PUBREL, ref::PUBCOMP, ref::SUBACK, ref::UNSUBACK, ref::DISCONNECT, ref::AUTH};
+    for (uint64_t i = 0; i < n; ++i) {
+        if (int(i % ctx.nshards) != ctx.shard) continue;
+        vu::Rng rng(ctx.seed * 2750159 + i * 193 + 17);
+        ref::Gen g(rng); g.max_str = 30;
+        Scenario base; base.family = "c19-hostile"; base.seed = ctx.seed; base.index = i;
+        base.ccfg.keep_alive = 600;     // no keep-alive traffic inside the compared window
+        Action r; r.kind = Action::run; base.script.push_back(r);
+        int phase = (int)rng.below(4);   // 0: instead of CONNACK, 1: right after CONNACK, 2: with requests awaiting replies, 3: mid QoS 2
+        std::string hostile;
+        if (phase == 0) {
+            // handshake: a mutated CONNACK / AUTH / something else instead of the CONNACK, possibly followed by more bytes
+            uint8_t t = rng.chance(2, 3) ? ref::CONNACK : rng.chance(1, 2) ? ref::AUTH : types[rng.below(sizeof types)];
+            hostile = mutate_packet(rng, g, t);
+            if (rng.chance(1, 3)) hostile += mutate_packet(rng, g, types[rng.below(sizeof types)]);
+            AttemptPlan a; a.hs = AttemptPlan::hs_custom; a.custom_bytes = hostile;
+            base.attempts.push_back(a);
+        }
+        vt t0 = 50 * MS;
+        // own requests so that replies can be (mis)matched
+        int nreq = (int)rng.range(phase >= 2 ? 1 : 0, 3);
+        if (phase >= 2) base.bcfg.silent_from = 0, base.bcfg.silent_until = 400 * MS;    // requests stay unanswered while the hostile bytes arrive
+        for (int k = 0; k < nreq; ++k) {
+            Action p; p.at = t0 + k * MS;
+            int w = (int)rng.below(4);
+            if (w <= 1) { p.kind = Action::publish; p.qos = phase == 3 ? 2 : (int)rng.range(1, 2); p.topic = "h"; p.payload = "req"; }
+            else if (w == 2) { p.kind = Action::subscribe; p.subs = {{"h/+", 1}}; }
+            else { p.kind = Action::unsubscribe; p.subs = {{"h/+", 0}}; }
+            base.script.push_back(p);
+        }
+        if (phase >= 1) {
+            // a stream of 1-4 server packets, one of them mutated; valid PUBLISHes before it produce comparable reactions
+            int np = (int)rng.range(1, 4), bad = (int)rng.below(np);
+            for (int k = 0; k < np; ++k) {
+                if (k == bad) {
+                    uint8_t t = types[rng.below(sizeof types)];
+                    if ((phase >= 2) && rng.chance(1, 2)) {
+                        // aim at an outstanding request: reply type with the id the request got (ids start at 1)
+                        ref::Packet rp; rp.type = rng.pick(std::vector<uint8_t>{ref::PUBACK, ref::PUBREC, ref::PUBCOMP, ref::SUBACK, ref::UNSUBACK}); rp.pid = (uint16_t)rng.range(1, 3);
+                        if (rp.type == ref::SUBACK || rp.type == ref::UNSUBACK) rp.rcs = {0};
+                        hostile += mutate_packet(rng, g, rp.type, &rp);
+                    } else hostile += mutate_packet(rng, g, t);
+                } else {
+                    ref::Packet p; p.type = ref::PUBLISH; p.qos = (uint8_t)rng.below(3); p.pid = p.qos ? uint16_t(100 + k) : 0; p.topic = "in/hostile/" + std::to_string(k); p.payload = "ok" + std::to_string(k);
+                    hostile += ref::encode(p);
+                }
+            }
+            Action hb; hb.kind = Action::hostile_bytes; hb.at = 200 * MS; hb.bytes = hostile; base.script.push_back(hb);
+        }
+        // recovery phase: a request issued afterwards must complete (bounded)
+        { Action p; p.kind = Action::publish; p.at = 2 * SEC; p.qos = 1; p.topic = "after"; p.payload = "recovery"; base.script.push_back(p); }
+        base.end = 2 * SEC + 90 * SEC;
+        Sig sigs[3]; bool have[3] = {false, false, false};
+        static const Chunking cks[3] = {Chunking::whole, Chunking::bytewise, Chunking::random};
+        for (int c = 0; c < 3; ++c) {
+            Scenario sc = base; sc.net.chunking = cks[c];
+            // all chunks of the stream arrive at one instant; latency fixed so that the three runs differ in chunking only
+            sc.net.latency_min = sc.net.latency_max = 200 * US;
+            vu::set_case(sc.family + " index=" + std::to_string(i) + " chunking=" + std::to_string(c) + " hostile=" + vu::hex(hostile, 80));
+            auto ex = execute(sc);
+            bool ok = j.judge(sc, *ex, c == 0);
+            j.res.count("hostile_runs");
+            if (!ok) continue;
+            // recovery
+            for (auto& o : ex->world->h.ops)
+                if (o.t_init == 2 * SEC && o.kind == OpKind::pub1 && !(o.completions && !o.ec && o.t_done < sc.end))
+                    j.res.violation("C19", "C19:no-recovery-after-hostile-bytes", "a QoS 1 publish issued 1.8 s after the hostile bytes had not completed 90 virtual seconds later (phase " + std::to_string(phase) + ", chunking " + std::to_string(c) + ")",
+                                      "scenario:\n" + sc.describe() + "\nhostile bytes: " + vu::hex(hostile, 200) + "\n" + ex->world->h.dump(700));
+            if (phase >= 1) { sigs[c] = chunk_signature(*ex); have[c] = true; }
+        }
+        if (phase >= 1 && have[0] && have[1] && have[2]) {
+            // chunking independence, restricted to reactions up to the first malformed packet / server DISCONNECT:
+            // compare the common prefix semantics: the sequences must be equal up to the DISCONNECT the client sends, if any
+            auto cut = [](std::vector<std::string> v) { for (size_t k = 0; k < v.size(); ++k) if (v[k].rfind("DISCONNECT", 0) == 0) { v.resize(k + 1); break; } return v; };
+            for (int c = 1; c < 3; ++c) {
+                if (cut(sigs[0].wire) != cut(sigs[c].wire)) {
+                    std::string a, b; for (auto& x : cut(sigs[0].wire)) a += x + " "; for (auto& x : cut(sigs[c].wire)) b += x + " ";
+                    j.res.violation("C19", "C19:chunking-dependent-responses", "the client's responses depend on how the same broker bytes are split into reads: whole=[" + a + "] vs chunking " + std::to_string(c) + "=[" + b + "]",
+                                      "scenario:\n" + base.describe() + "\nhostile bytes: " + vu::hex(hostile, 300));
+                }
+            }
+            j.res.count("chunking_comparisons");
+        }
+    }
+}
+
 }  // namespace
 
 int run_families(const FamilyCtx& ctx, vu::Result& res) {
@@ -359,6 +857,7 @@ int run_families(const FamilyCtx& ctx, vu::Result& res) {
     if (P == "C01") {
         Knobs k = knobs_for("c01-mix");
         run_mix(j, k, "c01-mix", T ? 200000 : 4000);
+        run_spurious(j, T ? 20000 : 600);
     } else if (P == "C02") {
         run_sweep(j, T ? 6 : 4, T, T ? std::vector<int>{0, 1, 2, 3} : std::vector<int>{0, 2});
         Knobs k = knobs_for("c02-mix");
@@ -384,6 +883,23 @@ int run_families(const FamilyCtx& ctx, vu::Result& res) {
     } else if (P == "C08") {
         Knobs k = knobs_for("c08-mix");
         run_mix(j, k, "c08-mix", T ? 100000 : 2000);
+        run_exhaustion(j);
+    } else if (P == "C09") {
+        run_idle_sweep(j, T ? 60 : 8, T ? 200 : 90, {1, 5});
+    } else if (P == "C10") {
+        run_c10(j, T ? 150000 : 3000);
+    } else if (P == "C11") {
+        Knobs k = knobs_for("c11-mix");
+        run_mix(j, k, "c11-mix", T ? 150000 : 3000);
+        run_idle_sweep(j, T ? 20 : 3, T ? 150 : 60, {0, 3});
+    } else if (P == "C12") {
+        run_c12(j, T ? 100000 : 2000);
+    } else if (P == "C15") {
+        run_c15(j, T ? 20000 : 400);
+    } else if (P == "C16") {
+        run_c16_api(j, T ? 100000 : 2000);
+    } else if (P == "C19") {
+        run_c19(j, T ? 60000 : 1000);
     } else if (P == "C13") {
         Knobs k = knobs_for("c13-mix");
         run_mix(j, k, "c13-mix", T ? 150000 : 3000);
